@@ -110,3 +110,4 @@ CFG['rule'] = CFG['rule'] + ' ' + 'Additions: documents carry, in half of the ca
 
 CFG['rule'] = CFG['rule'] + ' ' + 'Every standalone ranking leaf is also judged on its own: hybrid = weight x score (text) / -(weight x distance) (vectors) for the weight its request carries (code 180).'
 CFG['rule'] = CFG['rule'] + ' ' + 'A third of the integer values are adjacent integers beyond 2^53 (nanosecond timestamps, 64-bit ids, values next to the int64 extremes).'
+CFG['rule'] = CFG['rule'] + ' ' + 'One document in five carries a top-level key whose name is the dotted path nested.n (the path still means the nested value).'
